@@ -31,7 +31,15 @@ RULE = ('option lists of length 0..7 are drawn with replacement from a per-case 
         'pairs; raw option words with blanks, double blanks, quotes, backslashes, $, shell operators (string macros, an '
         'rpath directory, a --defsym, a library directory and -lm) given as toolchain-file list (one element = one word), '
         'toolchain-file string and CFLAGS/LDFLAGS/LDLIBS, each built and run: the program compares every macro with '
-        'strcmp, the rpath is read back with patchelf; words with a single quote go into projects of their own.')
+        'strcmp, the rpath is read back with patchelf; words with a single quote go into projects of their own. '
+        'Placement oracle: every semantic compile and link option (incl. lib by name / by file, lib_literal, lib_dir, '
+        'rpath_dir, rpath_link_dir) placed among the global options, the options a step derives (libs=, packages, '
+        'forwarded) and the step\'s own options (compile_options= / link_options=): the words it translates to alone must '
+        'be words of the final command line of the real _get_flags + tool call. Link options by placement, really built: '
+        'opts.lib("m") / opts.lib_literal("-lm"), opts.lib_dir + opts.lib of an outside archive (directory option at '
+        'the same or another placement) and opts.rpath_dir given in global_link_options, in link_options= of the program, '
+        'of a shared library and of a static library (forwarded); the code of that binary calls cbrt/hypot on run-time '
+        'values and the outside library; DT_NEEDED and RUNPATH are read back with readelf.')
 TRUSTED = ('R model: accepted-flag grammar of Misc/Options.v, validated against gcc 12 and clang 14 on this run '
            '(exit status of -fsyntax-only / link probes)',
            'effects (predefined macros, warnings-as-errors, entry point, sections) are observed on the real compilers, '
@@ -829,8 +837,86 @@ def stage_oracle(rep, rng, cs, thorough, budget=1):
     return failures
 
 
+def stage_oracle_placement(rep, rng):
+    """Wherever a semantic option is given - among the global options, among the options a step derives itself (libs=,
+    packages, forwarded by a static library) or among the step's OWN options (compile_options= / link_options=) - the
+    words it translates to when given alone must be words of the final command line (the real _get_flags of the compile
+    and link steps, the real tool call, variables expanded the way the backends do).  Independent of the model."""
+    from bfg9000 import options as opts
+    from bfg9000.builtins import compile as bcompile, link as blink
+    from bfg9000.path import Path
+    cc_specs = [('include', '/opt/a/include', False), ('include', '/opt/b', True), ('define', 'FOO', '42'), ('define', 'A', None),
+                ('std', 'c11'), ('warning', ('all', 'error')), ('debug',), ('optimize', ('speed',)), ('pthread',), ('pic',),
+                ('sanitize',), ('raw', '-funroll-loops')]
+    ld_specs = [('lib', ('name', 'm')), ('lib', ('name', 'z-1')), ('lib_literal', '-lraw'), ('lib_literal', '/abs/libz.a'),
+                ('lib_dir', '/opt/a'), ('lib_dir', '/srv/x y'), ('lib', ('static', '/l/lib', 'libfoo.a')),
+                ('lib', ('shared', '/l/lib64', 'libbar.so')), ('entry', 'main2'), ('debug',), ('pthread',), ('static',),
+                ('optimize', ('speed',)), ('raw', '-Wl,--as-needed'), ('rpath_dir', '/opt/c16 rp'),
+                ('rpath_link_dir', '/opt/c16 rl')]
+
+    def obj(spec):
+        if spec[0] == 'rpath_dir':
+            return opts.rpath_dir(Path(spec[1]))
+        if spec[0] == 'rpath_link_dir':
+            return opts.rpath_link_dir(Path(spec[1]))
+        return mk_obj(spec)
+    bad = 0
+    with Tools({'CFLAGS': '-O1', 'LDFLAGS': '-Wl,-O1', 'LDLIBS': '-lenvlib'}) as t:
+        StubC = type('StubCompile', (bcompile.BaseCompile,), {})
+        StubL = type('StubLink', (blink.DynamicLink,), {})
+        others_cc = [('define', 'OTHER', '1'), ('raw', '-DRAW=1')]
+        others_ld = [('lib', ('name', 'other')), ('raw', '-s')]
+        for side, specs in (('cc', cc_specs), ('ld', ld_specs)):
+            for spec in specs:
+                for place in ('global', 'derived', 'own'):
+                    # the other two places hold unrelated options (drawn, so that the lists are not all alike)
+                    oth = others_cc if side == 'cc' else others_ld
+                    lists = {p: [obj(o) for o in oth if rng.random() < 0.6] for p in ('global', 'derived', 'own')}
+                    lists[place].insert(rng.randint(0, len(lists[place])), obj(spec))
+                    be = _Backend()
+                    rep.case('place:%s:%r:%s' % (side, spec, place), True)
+                    rep.count('placement:%s:%s' % (side, place))
+                    try:
+                        if side == 'cc':
+                            st = object.__new__(StubC)
+                            st.compiler = t.compiler
+                            st._internal_options = opts.option_list(lists['derived'])
+                            st.user_options = opts.option_list(lists['own'])
+                            st.raw_output = None
+                            variables, kw = bcompile._get_flags(be, st, {'compile_options': {'c': lists['global']}}, None)
+                            argv = be.expand(t.compiler('in.c', 'out.o', **kw), variables)
+                            alone = t.compiler.flags([obj(spec)])
+                        else:
+                            st = object.__new__(StubL)
+                            st.linker = t.linker
+                            st._internal_options = opts.option_list(lists['derived'])
+                            st.user_options = opts.option_list(lists['own'])
+                            st.raw_output = t.output()
+                            bi = {'link_options': {'dynamic': {t.linker.family: lists['global']}}}
+                            variables, kw = blink._get_flags(be, st, bi, None)
+                            argv = be.expand(t.linker(['a.o'], 'prog', **kw), variables)
+                            alone = (list(t.linker.flags([obj(spec)], output=t.output())) +
+                                     list(t.linker.lib_flags([obj(spec)])))
+                        argv = [t.canon_flag(f) for f in argv]
+                        alone = [t.canon_flag(f) for f in alone]
+                    except (TypeError, ValueError) as e:
+                        argv, alone = [], ['<%s: %s>' % (type(e).__name__, e)]
+                    missing = [w for w in alone if w not in argv]
+                    if missing or not alone:
+                        bad += 1
+                        rep.fail('option %r placed among the %s options of a %s step: its words %r are missing from the final '
+                                 'command line %r (given alone it translates to %r)' % (
+                                     spec, {'global': 'global', 'derived': "step's derived (libs=/packages/forwarded)",
+                                            'own': "step's own (%s=)" % ('compile_options' if side == 'cc' else 'link_options')
+                                            }[place], 'compile' if side == 'cc' else 'link', missing, argv, alone),
+                                 {'placed_option': list(spec), 'placement': place, 'side': side, 'argv': argv, 'alone': alone})
+    rep.stage('oracle:option placement -> final command line', options=len(cc_specs) + len(ld_specs), placements=3,
+              failures=bad)
+    return bad
+
+
 # ----------------------------------------------------------------------------- system level (thorough)
-BUILD_BFG = '''# -*- python -*-
+BUILD_BFG ='''# -*- python -*-
 project('c16', intermediate_dirs=False)
 {globals}
 executable('prog', files=['main.c'], compile_options=[{copts}], link_options=[{lopts}])
@@ -1016,6 +1102,116 @@ def stage_system(rep, rng, cs):
     rep.stage('system:configure+make', projects=len(cases), ok=n_ok)
 
 
+LINK_PLACES = ['global', 'target', 'shared-library', 'static-library']
+
+
+def link_project(cs, tag, place, libform, libdir_place, extdir, rpdir, env0):
+    """One project whose link-side semantic options are given at `place`: a library by name (opts.lib('m') or
+    opts.lib_literal('-lm')), a library of a directory outside the project (opts.lib_dir + opts.lib('c16x'); the
+    directory option at `libdir_place`) and a run-time search directory (opts.rpath_dir).  The code that needs the
+    libraries is the code of the binary the options are given for.  Returns None or (what, replay)."""
+    d = os.path.join(cs.root, 'lnk-' + tag)
+    src, bld = os.path.join(d, 'src'), os.path.join(d, 'build')
+    os.makedirs(src)
+    libopt = 'opts.lib("m")' if libform == 'lib' else 'opts.lib_literal("-lm")'
+    at = {p: [] for p in LINK_PLACES}
+    at[place] += [libopt, 'opts.lib("c16x")', 'opts.rpath_dir(Path(%r))' % rpdir]
+    at[libdir_place].append('opts.lib_dir(directory(%r))' % extdir)
+    needs = ('#include <math.h>\nint c16x(void);\nvolatile double c16_a = 27.0, c16_b = 3.0, c16_c = 4.0;\n'
+             'int needs_libs(void) { return (int)(cbrt(c16_a) + hypot(c16_b, c16_c) + 0.5) + c16x(); }\n')
+    main = '#include <stdio.h>\nint needs_libs(void);\nint main(void) { if (needs_libs() != 50) return 1; puts("c16-ok"); return 0; }\n'
+    files = {'main.c': main}
+    L = ["project('c16link')"]
+    if at['global']:
+        L.append('global_link_options([%s])' % ', '.join(at['global']))
+    libs = ''
+    if place in ('shared-library', 'static-library'):
+        files['inner.c'] = needs
+        fn = 'shared_library' if place == 'shared-library' else 'static_library'
+        L.append("inner = %s('sub/inner', files=['inner.c'], link_options=[%s])" % (fn, ', '.join(at[place])))
+        libs = ', libs=[inner]'
+    else:
+        files['main.c'] = needs + main
+    L.append("executable('prog', files=['main.c']%s, link_options=[%s])" % (libs, ', '.join(at['target'])))
+    files['build.bfg'] = '\n'.join(L) + '\n'
+    for k, v in files.items():
+        with open(os.path.join(src, k), 'w') as f:
+            f.write(v)
+    env = {k: v for k, v in env0.items() if k not in ('CFLAGS', 'CPPFLAGS', 'LDFLAGS', 'LDLIBS')}
+    replay = {'kind': 'link-options', 'placement': place, 'lib_dir_placement': libdir_place, 'build.bfg': files['build.bfg'],
+              'inner.c' if 'inner.c' in files else 'main.c': needs}
+    try:
+        p = subprocess.run(['bfg9000', 'configure-into', src, bld, '--backend=make', '--no-resolve-packages'],
+                           env=env, capture_output=True, text=True, timeout=300)
+        if p.returncode != 0:
+            return 'configure fails: %s' % (p.stderr or p.stdout)[-400:], dict(replay, stderr=p.stderr[-2000:])
+        p = subprocess.run(['make', '-C', bld], env=env, capture_output=True, text=True, timeout=300)
+        if p.returncode != 0:
+            return ('the build fails (the libraries the options name are not on the link line?): %s' % (p.stderr or p.stdout)[-500:],
+                    dict(replay, make=(p.stdout + p.stderr)[-3000:]))
+        r = subprocess.run([os.path.join(bld, 'prog')], capture_output=True, text=True, timeout=60, cwd='/')
+        if r.returncode != 0 or 'c16-ok' not in r.stdout:
+            return 'the program fails (exit %d: %s)' % (r.returncode, (r.stdout + r.stderr).strip()[-200:]), replay
+        # the binary the options were given for: what it records as needed and where it searches at run time
+        target = os.path.join(bld, 'sub', 'libinner.so') if place == 'shared-library' else os.path.join(bld, 'prog')
+        dyn = subprocess.run(['readelf', '-d', target], capture_output=True, text=True).stdout
+        needed = [l.split('[')[1].split(']')[0] for l in dyn.split('\n') if '(NEEDED)' in l and '[' in l]
+        runpath = [x for l in dyn.split('\n') if ('(RUNPATH)' in l or '(RPATH)' in l) and '[' in l
+                   for x in l.split('[', 1)[1].rsplit(']', 1)[0].split(':')]
+        if not any(n.startswith('libm.so') for n in needed):
+            return '%s does not record libm as needed (NEEDED %r)' % (os.path.basename(target), needed), dict(replay, dynamic=dyn[-1500:])
+        if rpdir not in runpath:
+            return ('%s does not search the directory of the rpath_dir option at run time (RUNPATH %r)' % (
+                os.path.basename(target), runpath), dict(replay, dynamic=dyn[-1500:]))
+        return None
+    finally:
+        shutil.rmtree(d, ignore_errors=True)
+
+
+def stage_system_link(rep, rng, cs, thorough):
+    """Link-side semantic options in every placement (global_link_options, link_options= of the program, of a shared
+    library, of a static library that forwards them), two spellings of a library by name, the library directory given at
+    the same or at another placement; really configured, built, run and read back with readelf."""
+    extdir = os.path.join(cs.root, 'ext libs')
+    os.makedirs(extdir, exist_ok=True)
+    xsrc = cs.write('int c16x(void) { return 42; }\n')
+    r1 = cs.run(['gcc', '-fPIC', '-c', xsrc, '-o', 'c16x.o'])
+    r2 = cs.run(['ar', 'cr', os.path.join(extdir, 'libc16x.a'), 'c16x.o'])
+    if r1[0] or r2[0]:
+        rep.fail('system setup: cannot build the outside library', {'obligation': 'system setup'}, found_input=False)
+        return
+    env0 = common.impl_env()
+    cases = []
+    for k, place in enumerate(LINK_PLACES):
+        # the library directory: with the library that needs it, and at another placement from which it still reaches
+        # that link (global reaches every link; the program's own options reach the program only)
+        other = 'global' if place != 'global' else 'target'
+        cases.append((place, 'lib', place))
+        cases.append((place, 'lib_literal', other))
+        if thorough:
+            cases.append((place, 'lib', other))
+            cases.append((place, 'lib_literal', place))
+    rp = ['/opt/c16 rp', '/opt/c16rp/x', '/opt/c16 $rp']
+    jobs = [(place, libform, ldp, rng.choice(rp)) for place, libform, ldp in cases]
+    with ThreadPoolExecutor(max_workers=4) as ex:
+        res = list(ex.map(lambda j: link_project(cs, '%s-%s-%s' % (j[0], j[1], j[2]), j[0], j[1], j[2], extdir, j[3], env0), jobs))
+    n_ok = 0
+    for (place, libform, ldp, rpdir), r in zip(jobs, res):
+        rep.case('lnk:%s:%s:%s:%s' % (place, libform, ldp, rpdir), True)
+        rep.count('system:link-options:' + place)
+        if r is None:
+            n_ok += 1
+            continue
+        what, replay = r
+        rep.fail('system: link options (%s, lib_dir + lib("c16x"), rpath_dir(%r)) given as %s (lib_dir as %s) do not have '
+                 'their effect: %s' % ('opts.lib("m")' if libform == 'lib' else 'opts.lib_literal("-lm")', rpdir,
+                                       {'global': 'global_link_options', 'target': "the program's link_options=",
+                                        'shared-library': "a shared library's link_options=",
+                                        'static-library': "a static library's link_options= (forwarded)"}[place],
+                                       ldp, what), replay)
+    rep.stage('system:link options by placement', projects=len(jobs), ok=n_ok)
+
+
 WORD_VALUES = ['hello world', 'a  b', "it's", 'say "hi"', 'back\\slash', '$HOME', '${HOME}', 'a;b', 'x&y', '*', 'tab\there',
                'q\'"mix', ' lead', 'trail ', '~', '`id`', '(p)', 'a|b', '<i>', '%s', '\\', 'a\\ b', '$$', "''", '""', 'a=b c=d', ',x y']
 
@@ -1135,7 +1331,11 @@ def stage_system_words(rep, rng, cs, thorough):
         plain = rng.choice(['-DPLAINWORD=7', '-DPLAINWORD=7', '-O1'])
         runs = [(vals, rdir, libdir, form)]
         if form == 'toolchain-list':
-            q = [v for v in vals if "'" in v] or ["it's"]
+            # ONE value with a single quote per such project: the failure signature of the known finding (that word
+            # arriving with backslashes for its quotes / the configure error of an odd number of quotes) is stated for
+            # a single quoted word; the quotes of two such words of one list pair up ACROSS the words and merge them
+            # (same defect, another signature, so the narrow class would not explain it)
+            q = [v for v in vals if "'" in v][:1] or ["it's"]
             runs = [([v for v in vals if "'" not in v], rdir, libdir.replace("'", ' '), form),
                     (q, '/opt/c16 d', libdir if "'" in libdir else "/opt/c16 l", form + '-quote')]
         for vs, rd, ld_, tag in runs:
@@ -1168,8 +1368,10 @@ def run(rep):
         found = stage_oracle(rep, rng, cs, thorough or bool(dis))   # wider probe set when the tie broke
         found = (found or 0) + stage_oracle_default_dirs(rep, cs)
         found += stage_oracle_pch(rep, rng)
+        found += stage_oracle_placement(rep, rng)
         rep.stage('compilers', invocations=cs.n)
         stage_system(rep, rng, cs)
+        stage_system_link(rep, rng, cs, thorough)
         stage_system_words(rep, rng, cs, thorough)
     finally:
         shutil.rmtree(root, ignore_errors=True)
